@@ -72,6 +72,9 @@ class Models(object):
         body = body_builder(*vs)
         self._builders[name] = (params, ret, body_builder)
         self.decl(name, [ps for (_, ps) in params], ret)
+        for st_ in tm.subterms(body):
+            if st_.op == "app" and st_.args[0] != name and st_.args[0] not in self.decls:
+                self.decl(st_.args[0], [x.sort for x in st_.args[1:]], st_.sort)
         self.define(name, "(define-fun-rec %s (%s) %s %s)" % (
             name, " ".join("(%s %s)" % (pn, ps) for (pn, ps) in params), ret, tm.smt(body)))
 
